@@ -424,6 +424,72 @@ def rule_lane_copy(ctx, R="C04/lane-copy"):
               "the u128 assembled from four register words is not their little-endian concatenation: %s" % shown)
 
 
+# text decoding that fails on bytes that are not valid UTF-8
+DECODERS = {"<std::io::Lines<B> as std::iter::Iterator>::next": "a line of the file is not valid UTF-8", "std::fs::read_to_string": "the file is not valid UTF-8",
+            "std::string::String::from_utf8": "the bytes are not valid UTF-8", "std::str::from_utf8": "the bytes are not valid UTF-8",
+            "std::ffi::OsStr::to_str": "the name is not valid UTF-8", "std::ffi::OsString::into_string": "the name is not valid UTF-8",
+            "std::path::Path::to_str": "the path is not valid UTF-8", "std::ffi::CStr::to_str": "the string is not valid UTF-8",
+            "std::io::Read::read_to_string": "the stream is not valid UTF-8", "std::io::BufRead::read_line": "the line is not valid UTF-8"}
+# files whose text the target chooses (thread / process names, command line, environment, mapped file names)
+TARGET_TEXT_FILES = ("/status", "/comm", "/cmdline", "/environ", "/maps", "/stat")
+
+
+def rule_hard_decode(ctx, R="C04/hard-decode"):
+    """every thread that can be attached must be listed whatever its NAME is: on the hard path of a dump (everything reachable from
+    dump() without entering a best-effort step) no decode of target-chosen text may turn 'not valid UTF-8' into a propagated error.
+    (A 15-byte comm cut in the middle of a multi-byte character is invalid UTF-8; /proc/<tid>/status repeats it on its Name: line.)"""
+    from rules import c11
+    prog = ctx.prog
+    cg, _ = prog.callgraph()
+    steps = set(c11.STEP_ROOTS)
+    hard, st = set(), ["linux::minidump_writer::MinidumpWriter::dump"]
+    while st:
+        f = st.pop()
+        if f in hard or f in steps:
+            continue
+        hard.add(f)
+        st.extend(cg.get(f, ()))
+    n = 0
+    for f in sorted(hard):
+        for b in prog.by_short.get(f, ()):
+            o = None
+            for bi, t in b.calls():
+                cv = CalleeView(t["callee"])
+                nm = cv.target or cv.short or ""
+                if nm not in DECODERS and (cv.short or "") not in DECODERS:
+                    continue
+                why = DECODERS.get(nm) or DECODERS.get(cv.short)
+                o = o or Origin(b)
+                e = o.call_expr(bi)
+                strs = [s_[1] for s_ in walk(e) if s_[0] == "str"]
+                target_text = any(any(x in s_ for x in TARGET_TEXT_FILES) and "/proc/" in s_ for s_ in strs) or not strs
+                if not target_text:
+                    continue
+                n += 1
+                # is the failure propagated?  some Try::branch / ok_or(..)? in this function consumes a value derived from this call
+                propagated = None
+                for bj, t2 in b.calls(lambda c: c.short == "std::ops::Try::branch"):
+                    a0 = o.call_args(bj)[0]
+                    if any(q[0] == "call" and q[1] == e[1] and q[3] == e[3] for q in walk(a0)):
+                        # only the decode's own Result counts: the branch operand is the item itself (possibly through Some/ok_or)
+                        a1 = strip(a0)
+                        while a1[0] == "call" and a1[1].split("::")[-1] in ("ok_or", "ok_or_else", "map_err") and a1[2]:
+                            a1 = strip(a1[2][0])
+                        if a1[0] in ("some",):
+                            a1 = strip(a1[1])
+                        if a1[0] == "call" and a1[1] == e[1] and a1[3] == e[3]:
+                            propagated = bj
+                key = (f.split("::")[-1], nm.split("::")[-1], "#%d" % n)
+                if propagated is None:
+                    ctx.ok(R, key, b.where(bi), "decode failure (%s) is handled locally, not propagated" % why, nontrivial=False)
+                else:
+                    ctx.violated(R, ("propagated", f.split("::")[-1], nm.split("::")[-1]), b.where(bi),
+                                 "on the hard path of dump(), %s decodes target-chosen text (%s) and propagates the failure when %s: one thread or file with such a name makes the whole dump fail"
+                                 % (f, ", ".join(strs)[:80] or "target bytes", why))
+    ctx.analysed["hard_path_functions"] = len(hard)
+    ctx.floor(R, "functions on the hard path of dump()", len(hard), 100)
+
+
 def run(ctx):
     rule_reg_map(ctx)
     rule_regs_source(ctx)
@@ -432,3 +498,4 @@ def run(ctx):
     rule_skip_only_null_sp(ctx)
     rule_thread_list_mutators(ctx)
     rule_lane_copy(ctx)
+    rule_hard_decode(ctx)
